@@ -241,11 +241,14 @@ void int_unregister(struct owner *o, int i)
 	m->registered = 0;
 	struct vchild *c = child_by_pid(m->pid);
 	if (c && c->interest == m) c->interest = NULL;
+	/* with the last interest the SIGCHLD interest goes away, and with it any notification that was still on its way.  "Last" is
+	 * judged when the call begins: an interest whose registration (in another thread) only completes while this call is under way
+	 * may or may not be there yet when the library looks for somebody to hand the pending notification to */
+	int others_before = n_registered_interests();
 	libcalls++;
 	iv_wait_interest_unregister(m->iv);
 	libcalls--;
-	/* with the last interest the SIGCHLD interest goes away, and with it any notification that was still on its way */
-	if (n_registered_interests() == 0) for (int k = 0; k < MAXCH; k++) ch[k].owed_reap = 0;
+	if (others_before == 0 || n_registered_interests() == 0) for (int k = 0; k < MAXCH; k++) ch[k].owed_reap = 0;
 	memset(m->iv, 0x5A, sizeof *m->iv); free(m->iv); m->iv = NULL;
 }
 static __thread int kill_bias;
